@@ -16,6 +16,12 @@ NOT_APPLICABLE = {
 }
 
 
+def accepted():
+    """Checks are claimed only once reviewed and accepted: ids listed in tools/accepted.txt."""
+    with open(os.path.join(VERIF, "tools", "accepted.txt")) as f:
+        return {l.strip() for l in f if l.strip() and not l.startswith("#")}
+
+
 def main():
     props = [json.loads(l) for l in open(os.path.join(VERIF, "properties.jsonl"))]
     checks = []
@@ -34,7 +40,7 @@ def main():
                     meta[node.targets[0].id] = ast.literal_eval(node.value)
                 except Exception:
                     pass
-        if "ID" not in meta or meta.get("DISABLED"):
+        if "ID" not in meta or meta.get("DISABLED") or meta["ID"] not in accepted():
             continue
         pid = meta["ID"]
         claimed.add(pid)
